@@ -12,6 +12,7 @@ CONSTANTS
   Indents = {0, 2}
   Cap = 3
   AsBuilt = FALSE
+  Bounded = TRUE
   TrackMain = FALSE
   Obs <- ObsEmit
 INVARIANTS TypeOK RefsMatchHolders QuiescenceClosed MainMatches NoStaleUse LoaderSane
